@@ -34,7 +34,8 @@ DIRECTED = [
     "functie kies(c) { als c { 10 } anders { antwoord 20 } } [kies(ja), kies(nee)]", "functie kies(c) { als c { antwoord 10 } anders { 20 } } [kies(ja), kies(nee)]",
     "functie kies(c) { als c { 10 } anders als c { 11 } anders { antwoord 20 } } print(\"{}\", kies(ja)); kies(nee)", "functie k(c) { zolang c { antwoord 1 } } [k(ja), k(nee)]",
     "functie k(c) { als c { 10 } anders { antwoord 20 }; 30 } [k(ja), k(nee)]", "functie k(c) { { als c { 10 } anders { antwoord 20 } } } [k(ja), k(nee)]",
-    "functie z() { } z()", "functie z() { stel a = 1 } z()", "functie z() { antwoord } 1",
+    "functie z(a) { } z(1)", "functie z(a, b) { } [z(1, 2), z(3, 4)]", "functie cb(f) { f(7) } functie negeer(x) { } cb(negeer)",
+    "stel t = 1; functie lees() { t } stel t = 100; [lees(), t]", "functie z() { } z()", "functie z() { stel a = 1 } z()", "functie z() { antwoord } 1",
 ]
 DEEP = [
     "functie r(n) { als n == 0 { antwoord 0 } 1 + r(n - 1) } r(40000)",
@@ -47,7 +48,7 @@ DEEP = [
 def run(ctx, log):
     rng = ctx.rng
     srcs, asts = progcheck.gen_sources(ctx, 500 if ctx.quick else 8000, max_depth=3)
-    base = DIRECTED + srcs
+    base = DIRECTED + progcheck.evaluation_order_family() + srcs
     obs = progcheck.pipeline(ctx, base, log, budget=60000, label="calling-programs")
     for s, o in zip(base, obs["eval"]):
         ctx.seen(s, nontrivial="(" in s)
@@ -64,6 +65,14 @@ def run(ctx, log):
             ctx.violate("deep recursion did not end in a value or an error value (debug build)", source=s, observed=b[:200])
         elif ha != hb:
             ctx.violate("release and debug builds disagree on deep recursion", source=s, observed=hb[:200], expected=ha[:200])
+    # a fresh activation holds nothing of earlier ones: parameters that got no argument and locals not yet assigned are
+    # null whatever ran before (value semantics undocumented, DESIGN 4.3 items 4 and 7: compared with VM.v only)
+    fresh = ["functie f(a, b) { type(b) } functie g() { stel y = [1]; stel z = 5; 0 } g(); f(1)",
+             "functie f() { stel x = x; type(x) } functie g() { stel y = \"s\"; 0 } g(); g(); f()",
+             "functie f(a, b, c) { [type(a), type(b), type(c)] } functie g(p, q, r) { p + q + r } g(1, 2, 3); [f(1), f(), f(1, 2)]",
+             "functie t(n) { stel s = s; als n > 0 { s = n; t(n - 1) } type(s) } t(3)",
+             "functie f() { stel a = 1; { stel b = b; type(b) } } functie g() { stel u = 1; { stel v = [2]; 0 } } g(); f()"]
+    runcorr.run_corr(ctx, fresh, log, budget=5000, stages=("compile", "eval"), label="fresh-activations", shard_size=8)
     # the whole family: every alignment of the stack against its 16-bit limit, both build profiles
     fam = progcheck.deep_recursion_family()
     frel = vlib.nlh("eval", ["6000000 " + vlib.hexs(s) for s, _ in fam], tag="c12f", timeout=600)
